@@ -3,7 +3,7 @@ import os
 import subprocess
 from .common import Check, read_keyed, ROOT
 
-KNOWN_CLASSES = ("partial-commit", "staged-change-orphaned-by-context-switch")
+KNOWN_CLASSES = ("partial-commit", "staged-change-orphaned-by-context-switch", "staged-change-stored-by-vid-statement")
 
 
 def main(tier, replay=None):
@@ -159,4 +159,6 @@ def main(tier, replay=None):
                           "known finding partial-commit: fabric and networks are two stores, a failure or power loss between them commits the fabric without the networks",
                           "known finding staged-change-orphaned-by-context-switch: AddNOC over CASE moves the fail-safe context away from the arming fabric, "
                           "whose staged (unpersisted) changes are then neither committed nor rolled back",
+                          "known finding staged-change-stored-by-vid-statement: SetVIDVerificationStatement without a pending AddNOC/UpdateNOC stores the whole fabric, "
+                          "staged ACL/label changes included",
                           "theorems exclude failing IMMEDIATE stores (ACL writes outside the fail-safe): persistence of those is C11's subject"])
